@@ -292,3 +292,182 @@ registry.SPECS["Backend"] = lambda ctx, st, v: ctx.construct(I.ClassRef("gotranx
 for _q in (G + "gotran2py.main", G + "gotran2c.main"):
     CONTRACTS[_q].internal.update(CONTRACTS[_q].ensures)
     CONTRACTS[_q].ensures.clear()
+
+# ---- Path.suffix of a literal path is computed; convert / cellml2ode ---------------------------------------
+import pathlib  # noqa: E402
+
+
+def _suffix(ctx, st, rec):
+    p = rec.fields["p"]
+    for lit_text, term in core._LITS.items():
+        if term.eq(p.t):
+            return pathlib.PurePosixPath(lit_text).suffix
+    return SV(TName, core.uf("Path.suffix", TName.sort(), TName.sort())(p.t))
+
+
+registry.EXTERNALS["Path.suffix"] = _suffix
+
+contract(G + "cellml2ode.main", params={"fname": "Rec:Path", "outname": "any", "verbose": "Bool"}, ret="PyNone",
+         raises={"Exception": "maybe", "AssertionError": "maybe"}, traced=True, assumed=True, pure=False,
+         note="interface; the body is a thin wrapper around myokit (C15), checked by the bounded oracle")
+
+_C_SET, _PY_SET = {".c", ".h", "c"}, {".py", "python", "py"}
+
+
+@registry.spec("convert_expected")
+def _convert_expected(ctx, st, fname, to, outname, remove_unused, jax, verbose, scheme, stiff_states, delta):
+    if fname is None:
+        return []
+    if to == "":
+        if outname is None:
+            return []
+        to = pathlib.PurePosixPath(outname).suffix
+    common = {"fname": fname, "suffix": to, "outname": outname, "scheme": scheme, "remove_unused": remove_unused,
+              "verbose": verbose, "stiff_states": stiff_states, "delta": delta}
+    out = []
+    if to in _C_SET:
+        out.append(("gotran2c.main", dict(common)))
+    if to in _PY_SET:
+        bk = ctx.ev_contract_expr("ite(jax, 'jax', 'numpy')", I.State({"jax": jax}, st.pc, st.decisions, st.assumed))
+        out.append(("gotran2py.main", dict(common, backend=bk)))
+    if to in {".ode"}:
+        out.append(("cellml2ode.main", {"fname": fname, "outname": outname, "verbose": verbose}))
+    return out
+
+
+contract(
+    G + "convert",
+    params={"fname": "any", "to": "PyStr", "outname": "any", "remove_unused": "Bool", "jax": "Bool", "version": "any",
+            "license": "any", "verbose": "Bool", "scheme": "PyList", "stiff_states": "any", "delta": "Real"},
+    ret="PyNone", raises={"Exception": "maybe", "ValueError": "maybe", "ODEFileNotFound": "maybe", "GotranxError": "maybe", "AssertionError": "maybe"},
+    enum_params={"fname": [None, _fname], "to": ["", ".c", ".h", "c", ".py", "python", "py", ".ode", ".f90"],
+                 "outname": [None, "out.py", "model.h"], "version": [None], "license": [None],
+                 "scheme": [None, [_by["generalized_rush_larsen"]]], "stiff_states": [None, ["V"]]},
+    ensures={"dispatches_on_target_and_forwards_every_option":
+             "trace_is(convert_expected(fname, to, outname, remove_unused, jax, verbose, scheme, stiff_states, delta))"},
+    properties=("C18",),
+)
+
+# ---- get_code bodies -------------------------------------------------------------------------------------
+from .models import TText, TCode  # noqa: E402
+from pyvc.core import TSeq  # noqa: E402
+
+_prev_join = registry.EXTERNALS["__join__"]
+
+
+def _join2(ctx, st, sep, xs):
+    if isinstance(xs, (list, tuple)) and any(isinstance(x, SV) and x.ty == TText for x in xs):
+        # a module is read as the *set* of its top-level parts: the order of independent definitions carries no meaning
+        from pyvc.core import TSet
+        st_ = z3.K(TText.sort(), z3.BoolVal(False))
+        for x in xs:
+            st_ = z3.Store(st_, lift(x, TText).t, z3.BoolVal(True))
+        return SV(TText, core.uf("Text.module", TName.sort(), TSet(TText).sort(), TText.sort())(core.name_lit(sep), st_))
+    return _prev_join(ctx, st, sep, xs)
+
+
+registry.EXTERNALS["__join__"] = _join2
+
+for _cls, _bk in (("gotranx.codegen.python.PythonCodeGenerator", "numpy"), ("gotranx.codegen.jax.JaxCodeGenerator", "jax")):
+    contract(_cls + ".__init__", params={"ode": "ODE", "format": "Enum:PythonFormat", "remove_unused": "Bool", "shape": "Name"},
+             ret="CG", assumed=True, raises={"GotranxError": "maybe"},
+             ensures={"fields": "result.ode == ode and result.remove_unused == remove_unused and result._shape == shape"},
+             note="constructor of the backend generator: CodeGenerator.__init__ (verified) plus printer/formatter selection (assumed)")
+    registry.CLASS_OF[_cls] = "CG"
+contract("gotranx.codegen.c.CCodeGenerator.__init__", params={"ode": "ODE", "format": "Enum:CFormat", "remove_unused": "Bool"},
+         ret="CG", assumed=True, raises={"GotranxError": "maybe"},
+         ensures={"fields": "result.ode == ode and result.remove_unused == remove_unused and result._shape == 'dynamic'"})
+registry.CLASS_OF["gotranx.codegen.c.CCodeGenerator"] = "CG"
+contract(c_base.B + "imports", params={"self": "CG"}, ret="Text", assumed=True)
+
+
+class Formatter:
+    def __init__(self, fmt):
+        self.fmt = fmt
+
+
+def _get_formatter(ctx, st, format=None):
+    ctx.assumed_used.add("get_formatter(format): black / ruff / clang-format are assumed to preserve meaning; Format.none is the identity")
+    return Formatter(format)
+
+
+registry.EXTERNALS["gotranx.codegen.python.get_formatter"] = _get_formatter
+registry.EXTERNALS["gotranx.codegen.c.get_formatter"] = _get_formatter
+_orig_call2 = I.Interp.call
+
+
+def _call2(self, f, args, kwargs, st, node=None):
+    if isinstance(f, Formatter):
+        (code,) = args
+        return formatted(f.fmt, code)
+    return _orig_call2(self, f, args, kwargs, st, node)
+
+
+I.Interp.call = _call2
+
+
+def formatted(fmt, code):
+    return SV(TText, core.uf("apply_formatter", TName.sort(), TText.sort(), TText.sort())(lift(fmt.value, TName).t, lift(code, TText).t))
+
+
+CONTRACTS[U + "add_schemes"].ret_py = lambda ctx, st, env: _expected_schemes(ctx, st, env["codegen"], env["scheme"], env["delta"], env["stiff_states"])
+
+
+@registry.spec("expected_module")
+def _expected_module(ctx, st, gen_cls, ode, scheme, format, remove_unused, missing_values, delta, stiff_states, shape, header=()):
+    """the module text the API produces: the parts in their documented order, every option reaching the generator"""
+    none_fmt = [e for e in (_PYF if "python" in gen_cls or "jax" in gen_cls else _CF) if e.member == "none"][0]
+    kw = {"format": none_fmt, "remove_unused": remove_unused}
+    if shape is not None:
+        kw["shape"] = shape
+    cg = ctx.call_contract(CONTRACTS[gen_cls + ".__init__"], [ode], kw, st)
+
+    def m(name, *a, **k):
+        return ctx.call_contract(CONTRACTS[c_base.B + name], [cg] + list(a), k, st)
+
+    mv = m("missing_values", missing_values) if missing_values is not None else ""
+    parts = [m("imports")] + list(header) + [
+        m("parameter_index"), m("state_index"), m("monitor_index"), m("missing_index"),
+        m("initial_parameter_values"), m("initial_state_values"), m("rhs"), m("monitor_values"), mv,
+    ] + _expected_schemes(ctx, st, cg, scheme, delta, stiff_states)
+    code = m("_format", _join2(ctx, st, "\n", parts))
+    if format != none_fmt:
+        code = formatted(format, code)
+    return code
+
+
+_mvals = core.fresh(core.parse_ty("Dict[Name,Int]"), "missing_values")
+_SHAPES = [e.value for e in enum_values("Shape")]
+contract(
+    G + "gotran2py.get_code@body", params={}, assumed=True)  # placeholder so that the name is documented
+del CONTRACTS[G + "gotran2py.get_code@body"]
+
+_gc = CONTRACTS[G + "gotran2py.get_code"]
+_gc.assumed = False
+_gc.requires = ["WF(ode)"]
+_gc.raises = {"Exception": "maybe", "GotranxError": "maybe", "CycleError": "maybe", "KeyError": "maybe", "ValueError": "maybe", "TypeError": "maybe"}
+_gc.params = {"ode": "ODE", "scheme": "PyList", "format": "Enum:PythonFormat", "remove_unused": "Bool", "missing_values": "any",
+              "delta": "Real", "stiff_states": "Opt[Seq[Name]]", "backend": "Enum:Backend", "shape": "PyStr"}
+_gc.enum_params = {"scheme": [None, [_by["explicit_euler"], _by["hybrid_rush_larsen"]]], "format": _PYF[:1] + _PYF[-1:],
+                   "missing_values": [None, _mvals], "backend": _BK, "shape": [_SHAPES[0], _SHAPES[-1]]}
+_gc.internal["module_has_every_part_with_every_option_forwarded"] = (
+    "result == expected_module('gotranx.codegen.python.PythonCodeGenerator' if backend == 'numpy' else 'gotranx.codegen.jax.JaxCodeGenerator', "
+    "ode, scheme, format, remove_unused, missing_values, delta, stiff_states, shape)")
+_gc.properties = ("C18", "C12", "C05")
+_gc.enum_cover = True
+
+core.COERCIONS[(repr(TName), repr(TText))] = lambda v: SV(TText, core.uf("Text.of_name", TName.sort(), TText.sort())(v.t))
+
+_gcc = CONTRACTS[G + "gotran2c.get_code"]
+_gcc.assumed = False
+_gcc.requires = ["WF(ode)"]
+_gcc.raises = dict(_gc.raises)
+_gcc.params = {"ode": "ODE", "scheme": "PyList", "format": "Enum:CFormat", "remove_unused": "Bool", "missing_values": "any",
+               "delta": "Real", "stiff_states": "Opt[Seq[Name]]"}
+_gcc.enum_params = {"scheme": [None, [_by["explicit_euler"], _by["hybrid_rush_larsen"]]], "format": _CF, "missing_values": [None, _mvals]}
+_gcc.enum_cover = True
+_gcc.internal["module_has_every_part_with_every_option_forwarded"] = (
+    "result == expected_module('gotranx.codegen.c.CCodeGenerator', ode, scheme, format, remove_unused, missing_values, delta, "
+    "stiff_states, None, [f'int NUM_STATES = {len(ode.states)};', f'int NUM_PARAMS = {len(ode.parameters)};', "
+    "f'int NUM_MONITORED = {len(ode.state_derivatives) + len(ode.intermediates)};'])")
+_gcc.properties = ("C18", "C02", "C04")
